@@ -196,7 +196,11 @@ MERGE_MODES = ["tp", "th", "tj", "ta", "bj", "bb"]
 # Input classes on which the unmodified library is known to misbehave (notes/jpatch.md, "Deepening round"); generated only when
 # named in VERIF_JPATCH_OPEN (comma separated, or "all"); then the oracle reports them as violations.
 _open_env = [x for x in os.environ.get("VERIF_JPATCH_OPEN", "").split(",") if x]
-OPEN_CLASSES = ("jsreg-replace-root",)
+OPEN_CLASSES = ("jsreg-replace-root", "merge-nul-name", "parent-pointers", "jbl-double-text")
+# jsreg-replace-root: iwjsreg_replace(reg, "", x) reads n->next of a freed node; merge-nul-name: member names are compared with
+# strncmp in _jbl_merge_patch_node (and jbn_clone copies names / strings with strndup); parent-pointers: children taken over by
+# _jbl_copy_node_data keep the `parent` pointer of the patch node (freed in heap mode); jbl-double-text: jbl_merge_patch_jbl sends the
+# patch through JSON text (doubles rounded to 8 fraction digits)
 OPEN_ON = set(OPEN_CLASSES) if "all" in _open_env else set(x for x in _open_env if x in OPEN_CLASSES)
 
 
@@ -230,7 +234,8 @@ def remove_at(doc, path_text):
 
 
 def heap_env():
-    return dict(os.environ, ASAN_OPTIONS="detect_leaks=1:abort_on_error=0", LSAN_OPTIONS="exitcode=0:print_suppressions=0",
+    extra = {"H_JPATCH_PAR": "1"} if "parent-pointers" in OPEN_ON else {}
+    return dict(os.environ, **extra, ASAN_OPTIONS="detect_leaks=1:abort_on_error=0", LSAN_OPTIONS="exitcode=0:print_suppressions=0",
                 UBSAN_OPTIONS="print_stacktrace=0")
 
 
@@ -339,6 +344,38 @@ def check(run):
                 if not ("jsreg-replace-root" in OPEN_ON and path == ""):
                     continue
         cases.append({"kind": "reg", "mode": mode, "doc": doc, "path": path, "val": val, "origin": "registry"})
+    # several calls on one registry (the dirty flag and the ownership of the tree across calls)
+    for _ in range(N // 6):
+        keys = [rng.choice(KEYS) for _ in range(rng.range(2, 4))]
+        doc = gen_doc(rng, 2, keys)
+        while not isinstance(doc, dict):
+            doc = gen_doc(rng, 2, keys)
+        steps = []
+        for _k in range(rng.range(2, 4)):
+            paths = [p for p, v in J.all_paths(doc) if p]
+            base = rng.choice(paths) if paths and rng.chance(2, 3) else ""
+            path = base + "".join("/" + J.esc(rng.choice(keys + ["n"])) for _ in range(rng.range(0, 2)))
+            if rng.chance(1, 10):
+                path = rng.choice(["x", path + "/", ""])
+            val = rng.choice([MISSING, None, gen_doc(rng, 2, keys), gen_patch_for(rng, doc, 2, keys), gen_scalar(rng), [1, "s", [2]]])
+            steps.append(["m", path] + ([val] if val is not MISSING else []))
+        if "parent-pointers" in OPEN_ON and rng.chance(1, 2):
+            # a member replaced by an array, then an item of that array replaced: iwjsreg_replace reads the item's parent pointer
+            steps = [["m", "/foo", {"arr": 5}], ["m", "/foo", {"arr": [1, "two", {"x": 3}]}], ["r", "/foo/arr/" + rng.choice(["0", "1", "2"]), 7]]
+        cases.append({"kind": "regs", "doc": doc, "steps": steps, "origin": "registry-seq"})
+    if "merge-nul-name" in OPEN_ON:
+        for _ in range(N // 8):
+            a, b = rng.choice([("a\x00b", "a\x00c"), ("\x00x", "\x00y"), ("k\x00", "k\x00\x00"), ("ab\x00cd", "ab\x00ce")])
+            doc = {a: rng.choice([1, "s", {"z": 1}]), "k": 1}
+            patch = {b: rng.choice([None, 2, {"q": 1}])}
+            if rng.chance(1, 3):
+                doc, patch = {"o": doc}, {"o": patch}
+            cases.append({"kind": "merge", "doc": doc, "patch": patch, "origin": "nul-name"})
+    if "jbl-double-text" in OPEN_ON:
+        for _ in range(N // 8):
+            d = rng.choice([0.0009765625, 3.0517578125e-05, 5e-324, 1.0000152587890625, -0.00048828125])
+            patch = {"a": d} if rng.chance(1, 2) else {"o": {"x": [1, d]}}
+            cases.append({"kind": "merge", "doc": {"x": 1, "o": {"y": 2}}, "patch": patch, "origin": "double-text"})
     # merged documents the binary form cannot hold, and their storable near misses
     for _ in range(N // 2):
         doc, patch, what = gen_unrep_merge(rng)
@@ -363,6 +400,11 @@ def check(run):
                 lines.append("merge %s %s %s" % (m, J.hx(dt), J.hx(c["patch_text"])))
                 heap.append(False)
                 meta.append((ci, m))
+        elif c["kind"] == "regs":
+            c["steps_text"] = J.gen_json(c["steps"])
+            lines.append("regs %s %s" % (J.hx(dt), J.hx(c["steps_text"])))
+            heap.append(True)
+            meta.append((ci, "rq"))
         elif c["kind"] == "reg":
             vt = J.gen_json(c["val"]) if c["val"] is not MISSING else None
             c["val_text"] = vt
@@ -379,7 +421,8 @@ def check(run):
     plain_idx = [i for i in range(len(lines)) if not heap[i]]
     heap_idx = [i for i in range(len(lines)) if heap[i]]
     out_i = [None] * len(lines)
-    o1, _ = J.run_robust(impl, [lines[i] for i in plain_idx])
+    par_env = dict(os.environ, H_JPATCH_PAR="1") if "parent-pointers" in OPEN_ON else None
+    o1, _ = J.run_robust(impl, [lines[i] for i in plain_idx], env=par_env)
     for i, o in zip(plain_idx, o1):
         out_i[i] = o
     o2 = run_heap(impl_asan, [lines[i] for i in heap_idx])
@@ -405,6 +448,8 @@ def check(run):
     def describe(i):
         ci, m = meta[i]
         c = cases[ci]
+        if c["kind"] == "regs":
+            return "mode %s doc `%s` steps `%s`" % (m, c["doc_text"][:200], c["steps_text"][:300])
         return "mode %s doc `%s` %s" % (m, c["doc_text"][:200], ("patch `%s`" % c["patch_text"][:300]) if "patch_text" in c else
                                         "path `%s` val `%s`" % (c["path"], c.get("val_text")))
     if mism:
@@ -424,7 +469,7 @@ def check(run):
             seen_case.add(ci)
             run.dist("kind:" + c["kind"])
             run.dist("origin:" + c.get("origin", "gen"))
-            run.case(c["doc_text"] + "|" + str(c.get("patch_text", c.get("path"))) + "|" + str(c.get("val_text")), nontrivial=True,
+            run.case(c["doc_text"] + "|" + str(c.get("patch_text", c.get("path", c.get("steps_text")))) + "|" + str(c.get("val_text")), nontrivial=True,
                      sample=({"doc": c["doc_text"], "patch": c.get("patch_text"), "path": c.get("path"), "impl": o}
                              if ci % max(1, len(cases) // 5) == 0 else None))
         if o is None or o == "SKIPPED":
@@ -434,10 +479,19 @@ def check(run):
                "variant": "asan" if heap[i] else "plain"}
         if c["kind"] == "reg" and c["path"] == "" and m == "rr":
             rep["class"] = "jsreg-replace-root"
+        if c.get("origin") == "nul-name":
+            rep["class"] = "merge-nul-name"
+        if c.get("origin") == "double-text":
+            rep["class"] = "jbl-double-text"
+        if " par=bad" in o or (c["kind"] == "regs" and any(st[0] == "r" for st in c["steps"])):
+            rep["class"] = "parent-pointers"
+        if c["kind"] == "regs":
+            rep["kind"] = "regs"
+            rep["steps"] = c["steps_text"]
         if c["kind"] in ("mpath", "reg"):
             rep["path"] = c["path"]
             rep["val"] = c.get("val_text")
-        else:
+        elif c["kind"] != "regs":
             rep["patch"] = c["patch_text"]
 
         def viol(why):
@@ -471,6 +525,50 @@ def check(run):
             if "docparse" in f or "patchparse" in f:
                 viol("jbl_from_json refuses a document the binary form can hold: %s -> %s" % (describe(i), o[:200]))
                 continue
+        if f.get("par") == "bad":
+            viol("after the merge a child's `parent` pointer is not the node that lists it (children taken over by "
+                 "_jbl_copy_node_data keep pointing at the patch node / the freed clone): %s" % describe(i))
+            continue
+        if c["kind"] == "regs":
+            run.dist("registry:seq")
+            if "rcs" not in f or "doc" not in f:
+                run.broken.append("T2 harness: unexpected answer `%s`" % o[:200])
+                continue
+            rcs = f["rcs"].split(",")
+            cur, dirty, bad = J.clone(orig), False, None
+            for st, rcx in zip(c["steps"], rcs):
+                try:
+                    val = J.from_py(st[2]) if len(st) > 2 else MISSING
+                    patch = MISSING if (st[1] in ("", "/") and val is MISSING) else wrap(st[1], val)
+                except (J.PatchError, J.Lenient):
+                    if rcx == "ok":
+                        bad = "a path that is no JSON pointer was accepted"
+                    continue
+                if st[0] == "r":
+                    cur = remove_at(cur, st[1])
+                if patch is MISSING or not isinstance(patch, dict):
+                    if rcx == "ok":
+                        bad = "a non-object merge at the root was accepted"
+                    continue
+                if rcx != "ok":
+                    bad = "RFC 7386 defines the result of step %s, the registry reports %s" % (json.dumps(st)[:80], rcx)
+                    break
+                cur = merge_patch(cur, J.clone(patch))
+                dirty = True
+            try:
+                got = J.parse_dump(f["doc"])
+            except J.DumpError:
+                viol("the registry's tree is not a well-formed document: %s -> %s" % (describe(i), o[:200]))
+                continue
+            if bad:
+                viol("%s: %s -> %s" % (bad, describe(i), o[:200]))
+            elif f.get("leak") == "1":
+                viol("the registry leaks after a sequence of merges (LeakSanitizer): %s" % describe(i))
+            elif not J.eq_unordered(got, cur, False):
+                viol("registry after the calls differs from MergePatch applied step by step: %s -> %s, expected %s" % (describe(i), f["doc"], J.to_json(cur)))
+            elif f.get("dirty") != ("1" if dirty else "0"):
+                viol("the registry's dirty flag is %s after rcs=%s: %s" % (f.get("dirty"), f["rcs"], describe(i)))
+            continue
         if "rc" not in f or "doc" not in f:
             if "patchparse" in f or "docparse" in f:
                 continue
